@@ -1,6 +1,83 @@
-//! C11: not implemented yet.
+//! C11: format hint vs. content sniffing.
+//! ops:
+//!  {op:"resolve", hint, data:hex}            -> detected container, hinted container, resolved format, handler present
+//!  {op:"table"}                              -> get_supported_types() with the container id of each
+//!  {op:"sign", fmt, fixture, out:path}       -> sign the fixture (default hashing) and write it to `out`
+//!  {op:"read", hint, path | data:hex, full?} -> read under the hint: canonical report + hash of the normalised JSON
+use std::hash::{Hash, Hasher};
+
+use c2pa::verif_hooks::c11::{container_from_bytes, format_from_stream, has_handler, verif_container_from_format};
 use serde_json::{json, Value};
 
-pub fn run(_case: &Value) -> Value {
-    json!({"r": "unimplemented"})
+use crate::{e2e, util::*};
+
+fn load(case: &Value) -> Vec<u8> {
+    if let Some(p) = case["path"].as_str() {
+        std::fs::read(p).unwrap_or_else(|e| panic!("read {p}: {e}"))
+    } else if let Some(f) = case["fixture"].as_str() {
+        e2e::fixture(f)
+    } else {
+        hexd(&case["data"])
+    }
+}
+
+pub fn run(case: &Value) -> Value {
+    match case["op"].as_str().unwrap_or("resolve") {
+        "resolve" => {
+            let bytes = load(case);
+            let hint = case["hint"].as_str().unwrap_or("");
+            let resolved = format_from_stream(hint, &bytes);
+            json!({"r": "ok",
+                   "detected": container_from_bytes(&bytes),
+                   "hinted": verif_container_from_format(hint),
+                   "resolved": resolved,
+                   "resolved_container": verif_container_from_format(&resolved),
+                   "handler": has_handler(&resolved)})
+        }
+        "table" => {
+            let mut t: Vec<(String, Option<&'static str>)> = c2pa::jumbf_io::get_supported_types()
+                .into_iter()
+                .map(|s| {
+                    let c = verif_container_from_format(&s);
+                    (s, c)
+                })
+                .collect();
+            t.sort();
+            json!({"r": "ok", "table": t})
+        }
+        "sign" => {
+            let src = load(case);
+            let fmt = case["fmt"].as_str().expect("fmt");
+            let signer = e2e::signer("ed25519");
+            match e2e::sign(e2e::context(None), &e2e::minimal_manifest("c11"), fmt, &src, signer.as_ref()) {
+                Ok(out) => {
+                    std::fs::write(case["out"].as_str().expect("out"), &out).expect("write");
+                    json!({"r": "ok", "len": out.len(), "detected": container_from_bytes(&out)})
+                }
+                Err(e) => json!({"r": "err", "kind": err_class(&e), "detail": format!("{e}")}),
+            }
+        }
+        "read" => {
+            let bytes = load(case);
+            let hint = case["hint"].as_str().unwrap_or("");
+            let detected = container_from_bytes(&bytes);
+            let resolved = format_from_stream(hint, &bytes);
+            match e2e::read(e2e::context(None), hint, &bytes) {
+                Ok(r) => {
+                    let j = e2e::stable_json(&r);
+                    let s = j.to_string();
+                    let mut h = std::collections::hash_map::DefaultHasher::new();
+                    s.hash(&mut h);
+                    let mut out = json!({"r": "ok", "detected": detected, "resolved": resolved, "report": e2e::report(&r),
+                                         "json_len": s.len(), "json_hash": format!("{:016x}", h.finish())});
+                    if case["full"].as_bool().unwrap_or(false) {
+                        out["json"] = j;
+                    }
+                    out
+                }
+                Err(e) => json!({"r": "err", "detected": detected, "resolved": resolved, "kind": err_class(&e), "detail": format!("{e}")}),
+            }
+        }
+        other => json!({"r": "bad-op", "op": other}),
+    }
 }
